@@ -15,7 +15,7 @@ use crate::ops::Outcome;
 use std::panic::{catch_unwind, AssertUnwindSafe};
 use xml_dom::{AsNode, DocumentMut, ElementMut, Node, NodeMut};
 
-pub const ORDER_DOC: &str = "<r x='1'><e a='1' p:b='2' xmlns:p='u'><k/>t</e><f/><g y='2'><i/><h><m/></h></g><!--c--></r><!--j-->";
+pub const ORDER_DOC: &str = "<r x='1'><e a='1' p:b='2' xmlns:p='u'><k/>t</e><f z='1' xmlns:q='v'/><g y='2'><i/><h><m/></h></g><!--c--></r><!--j-->";
 pub const ELEMENTS: [&str; 8] = ["r", "e", "k", "f", "g", "h", "m", "i"];
 pub const MOVABLE: [&str; 8] = ["e", "k", "f", "g", "h", "i", "#c", "#t"];
 pub const PARENTS: [&str; 5] = ["r", "e", "f", "g", "h"];
